@@ -15,6 +15,7 @@ Node specs (lists, so they survive a JSON round trip):
   ["PY", kids]                   plain python list of children (nested-list argument)
   ["TU", kids]                   tuple of children
   ["NONE"]                       None
+  ["ME", label] / ["ML"]         user metadata node with state+equality / holding a lock (not deep-copyable)
   ["TS", text]                   text child of a str SUBCLASS type (custom __str__/__format__)
   ["XT", result, text] / ["XD", result]   tagifiable str subclass / tagifiable HTMLDependency subclass
   ["LSUB", kids] ["TLSUB", kids] ["NT", [a, b]]   list subclass / TagList subclass / namedtuple of children
@@ -155,6 +156,40 @@ class TagifDep(HTMLDependency):
         return r
 
 
+class EqMeta(MetadataNode):
+    """a user-defined metadata node with state and value equality."""
+
+    def __init__(self, label="m"):
+        self.label = label
+        self.marks = []
+
+    def __copy__(self):
+        c = EqMeta(self.label)
+        c.marks = list(self.marks)
+        return c
+
+    def __eq__(self, o):
+        return type(o) is EqMeta and o.label == self.label and o.marks == self.marks
+
+    __hash__ = None
+
+
+class LockMeta(MetadataNode):
+    """a user-defined metadata node holding something that cannot be deep-copied (a lock); its own
+    __copy__ shares the lock on purpose."""
+
+    def __init__(self):
+        import threading
+        self.lock = threading.Lock()
+        self.copies = 0
+
+    def __copy__(self):
+        c = LockMeta.__new__(LockMeta)
+        c.lock = self.lock
+        c.copies = self.copies + 1
+        return c
+
+
 class TagifStored(Tagif):
     """Tagifiable that hands out the SAME stored (already tagified) object on every call,
     as a component that keeps its rendered UI around would."""
@@ -284,6 +319,10 @@ def build(spec: Any) -> Any:
         return TagifRaw(spec[1])
     if k == "XS":
         return TagifStored(spec[1])
+    if k == "ME":
+        return EqMeta(spec[1] if len(spec) > 1 else "m")
+    if k == "ML":
+        return LockMeta()
     if k == "TS":
         return SubText(spec[1])
     if k == "XT":
